@@ -91,89 +91,154 @@ def _read_frame(fd: int, deadline: float | None) -> Any:
     return pickle.loads(body)
 
 
-def _die_with_parent(sig: int) -> None:
+_LIBC: Any = None
+
+
+def _load_libc() -> None:
+    """in the template, once: the forks must not pay for importing ctypes"""
+    global _LIBC
     try:
         import ctypes
 
-        libc = ctypes.CDLL(None, use_errno=True)
-        libc.prctl(1, sig, 0, 0, 0)  # PR_SET_PDEATHSIG
+        _LIBC = ctypes.CDLL(None, use_errno=True)
     except Exception:  # noqa: BLE001 - not on Linux: EOF on stdin still ends the template
-        pass
+        _LIBC = None
+
+
+def _die_with_parent(sig: int) -> None:
+    if _LIBC is not None:
+        try:
+            _LIBC.prctl(1, sig, 0, 0, 0)  # PR_SET_PDEATHSIG
+        except Exception:  # noqa: BLE001
+            pass
 
 
 # ---------------------------------------------------------------------------- template side
 
 
-def _run_in_fork(worker: Any, job: Any, timeout: float, keep_closed: tuple[int, ...]) -> tuple[str, Any]:
+def _spawn(worker: Any, job: Any, close_in_child: list[int]) -> tuple[int, int]:
+    """fork one grandchild for one job -> (read end of its answer pipe, pid)"""
     r, w = os.pipe()
     pid = os.fork()
-    if pid == 0:
-        # ---- grandchild: one job, one answer, gone
-        code = 0
-        try:
-            os.close(r)
-            for fd in keep_closed:
-                try:
-                    os.close(fd)
-                except OSError:
-                    pass
-            _die_with_parent(signal.SIGKILL)
-            gc.disable()
-            try:
-                answer = ('ok', worker.run(job))
-            except BaseException:  # noqa: BLE001 - reported to the client, which raises
-                answer = ('error', traceback.format_exc()[-6000:])
-            try:
-                data = pickle.dumps(answer, protocol=pickle.HIGHEST_PROTOCOL)
-            except Exception:  # noqa: BLE001
-                data = pickle.dumps(('error', 'unpicklable result: ' + traceback.format_exc()[-3000:]))
-            view = memoryview(data)
-            while view:
-                n = os.write(w, view)
-                view = view[n:]
-        except BaseException:  # noqa: BLE001
-            code = 3
-        finally:
-            os._exit(code)
-    # ---- template
-    os.close(w)
-    chunks = []
-    deadline = time.monotonic() + timeout
-    status = 'ok'
+    if pid != 0:
+        os.close(w)
+        return r, pid
+    # ---- grandchild: one job, one answer, gone
+    code = 0
     try:
-        while True:
-            left = deadline - time.monotonic()
-            if left <= 0:
-                status = 'timeout'
-                break
-            ready, _, _ = select.select([r], [], [], left)
-            if not ready:
-                status = 'timeout'
-                break
-            chunk = os.read(r, 1 << 20)
-            if not chunk:
-                break
-            chunks.append(chunk)
-    finally:
         os.close(r)
-    if status == 'timeout':
+        for fd in close_in_child:
+            try:
+                os.close(fd)
+            except OSError:
+                pass
+        _die_with_parent(signal.SIGKILL)
+        gc.disable()
         try:
-            os.kill(pid, signal.SIGKILL)
-        except ProcessLookupError:
-            pass
-    _, wstatus = os.waitpid(pid, 0)  # always reaped
-    if status == 'timeout':
-        return ('timeout', f'no answer within {timeout}s, killed')
-    data = b''.join(chunks)
-    if not data:
-        return ('died', f'no answer, wait status {wstatus:#x}')
-    try:
-        return pickle.loads(data)
-    except Exception:  # noqa: BLE001
-        return ('died', f'truncated answer ({len(data)} bytes), wait status {wstatus:#x}')
+            answer = ('ok', worker.run(job))
+        except BaseException:  # noqa: BLE001 - reported to the client, which raises
+            answer = ('error', traceback.format_exc()[-6000:])
+        try:
+            data = pickle.dumps(answer, protocol=pickle.HIGHEST_PROTOCOL)
+        except Exception:  # noqa: BLE001
+            data = pickle.dumps(('error', 'unpicklable result: ' + traceback.format_exc()[-3000:]))
+        view = memoryview(data)
+        while view:
+            n = os.write(w, view)
+            view = view[n:]
+        os.close(w)  # the answer is complete before the (slow) teardown of the address space starts
+    except BaseException:  # noqa: BLE001
+        code = 3
+    finally:
+        os._exit(code)
+    raise AssertionError('unreachable')
+
+
+class _Reaper:
+    """children whose answer is in but which have not finished exiting: reaped without waiting, never more than `cap`"""
+
+    def __init__(self, cap: int = 16) -> None:
+        self.pids: list[int] = []
+        self.cap = cap
+
+    def add(self, pid: int) -> None:
+        self.pids.append(pid)
+        self.collect()
+
+    def collect(self) -> None:
+        left = []
+        for pid in self.pids:
+            try:
+                done, _ = os.waitpid(pid, os.WNOHANG)
+            except ChildProcessError:
+                continue
+            if done == 0:
+                left.append(pid)
+        while len(left) > self.cap:  # never more than `cap` unreaped: wait for the oldest
+            try:
+                os.waitpid(left.pop(0), 0)
+            except ChildProcessError:
+                pass
+        self.pids = left
+
+    def finish(self) -> None:
+        for pid in self.pids:
+            try:
+                os.waitpid(pid, 0)
+            except ChildProcessError:
+                pass
+        self.pids = []
+
+
+def _run_batch(worker: Any, jobs: list, timeout: float, parallel: int, channel: tuple[int, ...], reaper: _Reaper) -> list:
+    answers: list = [None] * len(jobs)
+    live: dict[int, list] = {}  # read fd -> [job index, pid, chunks, deadline]
+    nxt = 0
+
+    def finish(fd: int, status: str) -> None:
+        idx, pid, chunks, _ = live.pop(fd)
+        os.close(fd)
+        if status == 'timeout':
+            try:
+                os.kill(pid, signal.SIGKILL)
+            except ProcessLookupError:
+                pass
+            os.waitpid(pid, 0)
+            answers[idx] = ('timeout', f'no answer within {timeout}s, killed')
+            return
+        data = b''.join(chunks)
+        if not data:
+            _, wstatus = os.waitpid(pid, 0)
+            answers[idx] = ('died', f'no answer, wait status {wstatus:#x}')
+            return
+        reaper.add(pid)
+        try:
+            answers[idx] = pickle.loads(data)
+        except Exception:  # noqa: BLE001
+            answers[idx] = ('died', f'truncated answer ({len(data)} bytes)')
+
+    while nxt < len(jobs) or live:
+        while nxt < len(jobs) and len(live) < parallel:
+            fd, pid = _spawn(worker, jobs[nxt], list(channel) + list(live))
+            live[fd] = [nxt, pid, [], time.monotonic() + timeout]
+            nxt += 1
+        wait = max(0.0, min(st[3] for st in live.values()) - time.monotonic())
+        ready, _, _ = select.select(list(live), [], [], wait)
+        for fd in ready:
+            chunk = os.read(fd, 1 << 20)
+            if chunk:
+                live[fd][2].append(chunk)
+            else:
+                finish(fd, 'eof')
+        now = time.monotonic()
+        for fd in [fd for fd, st in live.items() if now >= st[3]]:
+            finish(fd, 'timeout')
+        reaper.collect()
+    return answers
 
 
 def _serve(worker_name: str) -> int:
+    _load_libc()
     _die_with_parent(signal.SIGTERM)
     # the channel moves away from fd 0/1; fd 1 becomes stderr so that prints can not corrupt it
     rx = os.dup(0)
@@ -192,20 +257,23 @@ def _serve(worker_name: str) -> int:
     gc.freeze()  # what exists now is never collected in the forks: fewer pages copied
     _write_frame(tx, {'ready': True, 'pid': os.getpid(), 'info': info})
     forks = 0
-    while True:
-        try:
-            request = _read_frame(rx, None)
-        except EOFError:
-            return 0
-        if request.get('op') == 'stats':
-            _write_frame(tx, {'forks': forks, 'pid': os.getpid()})
-            continue
-        timeout = float(request.get('job_timeout', 20.0))
-        answers = []
-        for job in request['jobs']:
-            answers.append(_run_in_fork(worker, job, timeout, (rx, tx)))
-            forks += 1
-        _write_frame(tx, {'answers': answers})
+    reaper = _Reaper()
+    try:
+        while True:
+            try:
+                request = _read_frame(rx, None)
+            except EOFError:
+                return 0
+            if request.get('op') == 'stats':
+                _write_frame(tx, {'forks': forks, 'pid': os.getpid(), 'unreaped': len(reaper.pids)})
+                continue
+            timeout = float(request.get('job_timeout', 20.0))
+            parallel = max(1, int(request.get('parallel', 1)))
+            answers = _run_batch(worker, request['jobs'], timeout, parallel, (rx, tx), reaper)
+            forks += len(answers)
+            _write_frame(tx, {'answers': answers})
+    finally:
+        reaper.finish()
 
 
 # ---------------------------------------------------------------------------- client side
@@ -214,8 +282,9 @@ def _serve(worker_name: str) -> int:
 class ForkServer:
     """client handle on one template process; `run(jobs)` -> list of results, in order"""
 
-    def __init__(self, worker: str, job_timeout: float = 20.0, start_timeout: float = 120.0) -> None:
+    def __init__(self, worker: str, job_timeout: float = 20.0, start_timeout: float = 120.0, parallel: int | None = None) -> None:
         self.worker = worker
+        self.parallel = parallel if parallel is not None else int(os.environ.get('VERIF_FORKISO_PARALLEL', '4') or '4')
         self.job_timeout = job_timeout
         self.start_timeout = start_timeout
         self.proc: subprocess.Popen | None = None
@@ -300,7 +369,7 @@ class ForkServer:
         if not jobs:
             return []
         started = time.monotonic()
-        reply = self._roundtrip({'jobs': jobs, 'job_timeout': self.job_timeout}, self.job_timeout * len(jobs) + 30.0)
+        reply = self._roundtrip({'jobs': jobs, 'job_timeout': self.job_timeout, 'parallel': self.parallel}, self.job_timeout * len(jobs) + 30.0)
         self.seconds += time.monotonic() - started
         self.jobs_run += len(jobs)
         out = []
